@@ -141,6 +141,9 @@ func c06Bombs() []c06Case {
 		c06Case{Input: []byte("*1\r\n")}, c06Case{Input: []byte("*3\r\n$1\r\na\r\n")}, c06Case{Input: []byte("*1")}, c06Case{Input: []byte("*")},
 		c06Case{Input: []byte("$")}, c06Case{Input: []byte("$3\r\nab")}, c06Case{Input: []byte("$3\r\nabcde")}, c06Case{Input: []byte("$-5\r\n")},
 		c06Case{Input: []byte("*-5\r\n")}, c06Case{Input: []byte("?\r\n")}, c06Case{Input: []byte("\r\n")}, c06Case{Input: []byte{0}},
+		// lines far longer than any limit a parser may have, with and without a terminator anywhere behind them
+		c06Case{Unit: "x", N: 70000, Tail: ""}, c06Case{Unit: "+x", N: 40000, Tail: ""}, c06Case{Unit: "+x", N: 40000, Tail: "\r\n"}, c06Case{Unit: "-", N: 70000, Tail: "\r"},
+		c06Case{Unit: ":1", N: 40000, Tail: ""}, c06Case{Unit: "$1", N: 40000, Tail: ""}, c06Case{Unit: "*1", N: 40000, Tail: ""}, c06Case{Unit: "$9", N: 70000, Tail: "\r\nab"},
 		c06Case{Unit: "*1\r\n", N: 1000, Tail: "$1\r\na\r\n"},
 		c06Case{Unit: "*1\r\n", N: 100000, Tail: "$1\r\na\r\n"},
 		c06Case{Unit: "*1\r\n", N: 200000, Tail: ""},
@@ -382,6 +385,15 @@ func TestC06(t *testing.T) {
 			h.Fail(rt, "c06.input", c, viaChild(c))
 			return
 		}
+		h.Fail(rt, "c06.input", c, evalC06(c))
+	})
+
+	// large arrays inside large arrays, after earlier large arrays on the same parser (every element must be present)
+	h.Rapid("nested-big", h.N(40, 1000), func(rt *rapid.T) {
+		lc := c02Long{Pattern: "nested-big", N: rapid.IntRange(1, 3).Draw(rt, "n"), Sizes: []int{rapid.SampledFrom([]int{3, 1024, 1025, 1100, 2049}).Draw(rt, "arity")}}
+		data, _ := lc.stream()
+		c := c06Case{Input: data}
+		h.Col.Case(true, []byte("nested-big "+lc.String()), "nested-big")
 		h.Fail(rt, "c06.input", c, evalC06(c))
 	})
 
